@@ -63,3 +63,22 @@ package rlwe
 //@ copy RingPackingEvaluator.ShallowCopy
 //@   shared RingPackingEvaluationKey XPow2NTT XInvPow2NTT
 //@   fresh Evaluators
+
+// ==== abstract contracts (Engine B): secret-key encryption of zero (property C03) ====
+// Encryptor invariant: the three samplers draw from the declared distributions.
+//@ spec encinv(enc) = dist(enc.xeSampler) == XE && dist(enc.xsSampler) == XS
+
+//@ afunc Encryptor.encryptZeroSkFromC1
+//@   property C03
+//@   requires encinv(enc)
+//@   requires isntt(sk.Value.Q) && mexp(sk.Value.Q) == 1
+//@   requires dom(c1) == 1 && mexp(c1) == 0
+//@   requires len(ct.Value) >= 1
+//@   case len(ct.Value) == 2 ; alias c1 = ct.Value[1]
+//@   case len(ct.Value) == 1
+//@   let c0 = ct.Value[0]
+//@   ensures val(c0) + val(c1) * val(sk.Value.Q) == fresh(XE, old(draws(XE)))
+//@   ensures draws(XE) == old(draws(XE)) + 1
+//@   ensures val(c1) == old(val(c1)) && mexp(c0) == 0 && mexp(c1) == 0
+//@   ensures indom(c0, ct.IsNTT)
+//@   ensures implies(len(ct.Value) == 2, indom(c1, ct.IsNTT))
